@@ -36,6 +36,10 @@ fn parse_float(tok: &str) -> Option<(f64, bool)> {
         _ => return None,
     };
     let rest: String = ch.collect();
+    if rest == "inf" {
+        // a normalised value beyond f64::MAX (e.g. bias 3e12 over a row of 1e-300 entries)
+        return Some((f64::INFINITY, neg));
+    }
     if rest.is_empty() || !rest.chars().all(|c| c.is_ascii_digit() || c == '.') {
         return None;
     }
@@ -107,6 +111,9 @@ fn parse_poly_row(line: &str) -> Result<Shown, String> {
 fn val_ok(shown: f64, neg: bool, stored: f64, prec: usize) -> bool {
     let half = 0.5 * 10f64.powi(-(prec as i32));
     let tol = half * (1.0 + 1e-9) + 1e-12 * stored.abs();
+    if shown.is_infinite() {
+        return stored.is_infinite() && neg == (stored < 0.0);
+    }
     if (shown - stored.abs()).abs() > tol {
         return false;
     }
@@ -286,6 +293,18 @@ fn run_matrix(case: u64, rng: &mut Rng, ev: &mut Ev) {
             *v = if rng.chance(0.5) { 0.0 } else { -0.0 };
         }
     }
+    if rng.chance(0.12) {
+        // a row of tiny but non-zero coefficients (below f64::EPSILON): not a zero row
+        let i = rng.below(m);
+        let unit = *rng.pick(&[2f64.powi(-60), 1e-17, 2f64.powi(-80), 1e-300]);
+        for v in a.mat[i].iter_mut() {
+            let k = rng.int(1, 9) as f64;
+            *v = if rng.chance(0.5) { k * unit } else { -k * unit };
+        }
+        if rng.chance(0.5) {
+            a.bias[i] = *rng.pick(&[-1.0, 1.0, 0.0, -0.0]);
+        }
+    }
     let opts = FormatOptions {
         sort_coefficients: *rng.pick(&[0usize, 0, 1, 5, n, n + 1]),
         simplify_zero: rng.chance(0.5),
@@ -296,7 +315,7 @@ fn run_matrix(case: u64, rng: &mut Rng, ev: &mut Ev) {
         skip_rows_n: 0,
         skip_rows: range(rng, m),
     };
-    let prec = rng.below(7);
+    let prec = if rng.chance(0.1) { 20 } else { rng.below(7) };
     let poly = rng.chance(0.5);
     let desc = json!({"object": a.json(), "as": if poly { "polytope" } else { "function" }, "options": format!("{:?}", opts), "precision": prec});
     ev.evaluations += 1;
